@@ -21,7 +21,11 @@ type Node struct {
 	Inc      *Incarnation // nil while down
 	IncCount int
 	Spare    bool // not part of the bootstrap configuration
+	NonVoter bool // to be added as a non-voting member right after the first election
 	Started  bool
+	// Label of the newest snapshot that became visible on this node's disk: log
+	// entries at or below it are dead weight (represented by the snapshot).
+	snapLabel uint64
 
 	Mirror *Mirror // recorder's copy of the persistent log
 
@@ -122,11 +126,14 @@ func newCluster(cfg *Config, sim *simrt.Sim) *Cluster {
 		node := n
 		n.FS.OnCrash = func(f *simos.FS) { c.onDiskCrash(node) }
 		simos.Mount(id, n.FS)
-		if i >= cfg.Voters+cfg.NonVoters {
+		if i >= cfg.Voters {
+			// Bootstrap makes every listed member a voter, so non-voters can only
+			// come into being through AddServer: they start empty, like spares.
 			n.Spare = true
+			n.NonVoter = i < cfg.Voters+cfg.NonVoters
 		} else {
 			c.bootMembers[id] = n.Addr
-			c.bootVoters[id] = i < cfg.Voters
+			c.bootVoters[id] = true
 		}
 		c.Nodes = append(c.Nodes, n)
 		c.byID[id] = n
